@@ -110,6 +110,15 @@ def main():
                     if not blob: continue                 # the property is about non-empty inputs
                     p = os.path.join(tmpd, "v%06d" % k); k += 1
                     open(p, "wb").write(blob); jobs.append((p, "mutant-" + kind + ":" + os.path.basename(f)))
+            # files that end inside their format's header: a test routine reads the title, the loader's probe does not, so only inputs cut
+            # in the first bytes can make the two disagree about recognition (one representative per extension, many cut points)
+            cuts = (4, 5, 8, 12, 16, 20, 24, 28, 29, 30, 31, 32, 40, 44, 48, 60, 64, 80, 100, 128, 200, 300, 438, 600, 950, 1080, 1083, 1084)
+            for f in pick:
+                data = open(f, "rb").read(1100)
+                for n in (cuts if tier == "thorough" else rng.sample(cuts, 9)):
+                    if n < len(data):
+                        p = os.path.join(tmpd, "h%06d" % k); k += 1
+                        open(p, "wb").write(data[:n]); jobs.append((p, "mutant-headcut%d:%s" % (n, os.path.basename(f))))
             for n in (1, 2, 3, 4, 16, 1084):              # tiny and all-zero inputs
                 p = os.path.join(tmpd, "z%d" % n); open(p, "wb").write(bytes(n)); jobs.append((p, "zeros-%d" % n))
         inp = "".join("%s %s\n" % (e, p) for p, _ in jobs for e in ("LP", "LM", "LF", "LC", "TP", "TM", "TF", "TC"))
